@@ -8,6 +8,7 @@ import (
 	"sort"
 	"time"
 
+	"github.com/aergoio/aergo/v2/consensus/impl/dpos/bp"
 	"github.com/aergoio/aergo/v2/consensus/impl/dpos/slot"
 	"github.com/aergoio/aergo/v2/state"
 	"github.com/aergoio/aergo/v2/types"
@@ -111,3 +112,17 @@ func (dpos *DPoS) VerifLibStatusDump() string {
 }
 
 func VerifMajority() uint16 { return majorityCount }
+
+// VerifBPIDs returns the node's current producer set in index order.
+func (dpos *DPoS) VerifBPIDs() []types.PeerID {
+	var out []types.PeerID
+	for i := 0; i < int(dpos.bpc.Size()); i++ {
+		id, ok := dpos.bpc.BpIndex2ID(bp.Index(i))
+		if !ok {
+			out = append(out, "")
+			continue
+		}
+		out = append(out, id)
+	}
+	return out
+}
